@@ -749,6 +749,9 @@ def _is_normalising(ctx: Context, fi: FuncInfo, flow, d, seen=None) -> Tuple[boo
                     return True, ""
                 return False, f"component {d.path[0]} returned by {cal.short} is not normalised on every return"
         return False, "tuple component of an unresolved call"
+    # uniform 1/L in any of the spellings C12.c accepts (one recogniser for both rules)
+    if d.node is not None and isinstance(v, (ast.BinOp, ast.Call)) and _is_uniform(ctx, fi, flow, d.node, v):
+        return True, ""
     if isinstance(v, ast.BinOp) and isinstance(v.op, ast.Div):
         if is_sum_of(v.right, norm_text(v.left)):
             return True, ""
@@ -983,6 +986,12 @@ def variants():
         Variant("h-benign-facade-bound-result", "benign", _facade_filter(True)),
         Variant("b-early-return-on-resume", "bad", insert_before(core, "SamplerCore.run_sampling", "from .tools import ProgressBar", "if resume_state_path is not None and not self._not_termination():\n    return"), ["C12.b"], quick=True),
         Variant("benign-rename-idx", "benign", alpha_rename(core, "SamplerCore.compute_posterior", "idx", "sel"), quick=True),
+        # uniform weights after resampling: the accepted spellings, and the near misses that must still be reported
+        Variant("c-benign-uniform-full-local-len", "benign", replace_stmt(core, "SamplerCore.compute_posterior", "weights = np.ones(len(idx)) / len(idx)", "n_draws = len(idx)\nweights = np.full(n_draws, 1.0 / n_draws, dtype=np.float64)"), quick=True),
+        Variant("c-benign-uniform-ones-times-recip", "benign", replace_stmt(core, "SamplerCore.compute_posterior", "weights = np.ones(len(idx)) / len(idx)", "weights = np.ones(idx.shape[0]) * (1.0 / idx.shape[0])")),
+        Variant("c-uniform-full-wrong-fill", "bad", replace_stmt(core, "SamplerCore.compute_posterior", "weights = np.ones(len(idx)) / len(idx)", "n_draws = len(idx)\nweights = np.full(n_draws, 1.0, dtype=np.float64)"), ["C12.c"], quick=True),
+        Variant("c-uniform-length-of-other-array", "bad", replace_stmt(core, "SamplerCore.compute_posterior", "weights = np.ones(len(idx)) / len(idx)", "n_draws = len(idx)\nweights = np.full(n_draws, 1.0 / len(bins_trim))"), ["C12.c"]),
+        Variant("c-uniform-reads-old-weights", "bad", replace_stmt(core, "SamplerCore.compute_posterior", "weights = np.ones(len(idx)) / len(idx)", "weights = np.full(len(weights), 1.0 / len(weights))"), ["C12.c"], quick=True),
         Variant("benign-guard-demorgan", "benign", replace_expr(core, "SamplerCore._not_termination", "1.0 - beta >= 0.0001 or ess < getattr(self, 'n_total', 0)", "not (1.0 - beta < 0.0001 and ess >= getattr(self, 'n_total', 0))"), quick=True),
         Variant("benign-hoist-ntotal", "benign", replace_stmt(core, "SamplerCore._not_termination", "return 1.0 - beta >= 0.0001 or ess < getattr(self, 'n_total', 0)", "target = getattr(self, 'n_total', 0)\nreturn 1.0 - beta >= 0.0001 or ess < target")),
     ]
